@@ -6,8 +6,8 @@
 (* executes it on the real collectors (R direction).                                         *)
 EXTENDS MC_Agg, Json
 
-VARIABLES hist, cuts, nser, fin
-gvars == <<vars, hist, cuts, nser, fin>>
+VARIABLES hist, cuts, nser, nemp, fin
+gvars == <<vars, hist, cuts, nser, nemp, fin>>
 
 DocG(c, v, w, d, g, q) == [id |-> <<0>>, cat |-> c, v |-> v, w |-> w, f |-> w, d |-> d, g |-> <<g>>, q |-> <<q>>]
 GenDocDomain ==
@@ -47,26 +47,29 @@ GenReqs == MCReqs \cup {
   << <<"t", Terms("g", 1, 1, CountDesc, << <<"h", HistExt("q", 6, 2, -3, 21, <<>>)>> >>)>>, <<"h", Hist("q", 2, 0, 0, Subs1)>> >>,
   << <<"co", Composite(10, << <<"a", "g", TRUE>>, <<"b", "w", TRUE>> >>, << <<"th", TopHits(2, << <<"g", TRUE>>, <<"id", TRUE>> >>, <<"id">>)>> >>)>> >> }
 
-H(rec) == hist' = Append(hist, rec) /\ UNCHANGED <<cuts, nser, fin>>
+H(rec) == hist' = Append(hist, rec) /\ UNCHANGED <<cuts, nser, nemp, fin>>
 Ids(e) == SortedSeq(e.D)
 
-GInit == Init /\ hist = <<>> /\ cuts = <<>> /\ nser = 0 /\ fin = FALSE
+GInit == Init /\ hist = <<>> /\ cuts = <<>> /\ nser = 0 /\ nemp = 0 /\ fin = FALSE
 
 Finish ==
   /\ ~fin /\ phase = "run" /\ Cardinality(pool) = 1
   /\ \A i \in 1..Len(part) : part[i] \in collected
   /\ PrintT(<<"CASE", ToJson([docs |-> docs, part |-> part, cuts |-> cuts, query |-> query, req |-> req, plan |-> hist])>>)
-  /\ fin' = TRUE /\ UNCHANGED <<vars, hist, cuts, nser>>
+  /\ fin' = TRUE /\ UNCHANGED <<vars, hist, cuts, nser, nemp>>
 
 GNext ==
   /\ ~fin
   /\ \/ \E d \in DocDomain, p \in 1..MaxParts, c \in BOOLEAN :
-          AddDoc(d, p) /\ cuts' = Append(cuts, c) /\ UNCHANGED <<hist, nser, fin>>
-     \/ Start /\ UNCHANGED <<hist, cuts, nser, fin>>
+          AddDoc(d, p) /\ cuts' = Append(cuts, c) /\ UNCHANGED <<hist, nser, nemp, fin>>
+     \/ Start /\ UNCHANGED <<hist, cuts, nser, nemp, fin>>
+     \* an empty intermediate result (fold seed / partition without segments), at most three per behaviour
+     \/ CollectEmpty /\ nemp < 3 /\ [D |-> {}, x |-> EmptySubs(req)] \notin pool /\ nemp' = nemp + 1
+        /\ hist' = Append(hist, [op |-> "empty"]) /\ UNCHANGED <<cuts, nser, fin>>
      \/ \E p \in 1..MaxParts : Collect(p) /\ H([op |-> "collect", part |-> p])
      \/ \E e1, e2 \in pool : MergeTwo(e1, e2) /\ H([op |-> "merge", a |-> Ids(e1), b |-> Ids(e2)])
      \/ \E e \in pool : SerializeStep(e) /\ nser < 2 /\ nser' = nser + 1
-                        /\ hist' = Append(hist, [op |-> "ser", h |-> Ids(e)]) /\ UNCHANGED <<cuts, fin>>
+                        /\ hist' = Append(hist, [op |-> "ser", h |-> Ids(e)]) /\ UNCHANGED <<cuts, nemp, fin>>
      \/ Finish
 
 GSpec == GInit /\ [][GNext]_gvars
